@@ -429,3 +429,144 @@ Example raw_tokens_witness :
     = [[117;110;105;116]; [116;101;115;116]; [120]]
   /\ raw_tokens true 1 [97;98;49;50;32;35;120] = [[97]; [98]; [35]; [120]].
 Proof. vm_compute. split; reflexivity. Qed.
+
+(** * The file readers, the key segmentation and the query normalisation inside the model (third session, topic M;
+      C20_Bytes.v).  A corpus file is its BYTES.  [file_lines bs] = the lines [Dictionary::create] reads since /repo
+      15728b4 (D16): the crate's [LossyUtf8Reader] ([Lines_Model.lossy_lines]: [read_until(b'\n')], strip "\n" and one
+      "\r", [String::from_utf8_lossy]); [file_lines_pinned bs] = what the pinned tree read: [BufRead::lines] +
+      [map_while(Result::ok)] ([C19_Lines.dict_read]: stops at the first line that is not UTF-8);
+      [create_bytes] / [create_bytes_pinned] = [create_raw] on the lines of all files; [split_lines []] = [BufRead::lines]
+      on a list of units (NFKC_Tie.v); [load_b] = [Dictionary::load] on arbitrary bytes; [seg_key k] = the model's own
+      grapheme segmentation of a key; [closest_m] = [get_closest] with it (no oracle); [prep v] = the input with every
+      oracle replaced by what the model computes from the bytes and the raw queries. *)
+From TU Require Import C20_Bytes C20_BytesProofs.
+From TU Require C01_Model NFKC_Tie Lines_Model C19_Lines.
+
+(** the lossy reader cuts the file exactly where [BufRead::lines] cuts it (every 0x0A; one 0x0D before it dropped; a last
+    piece without 0x0A is a line iff non-empty) and decodes every piece lossily — for EVERY byte string *)
+Theorem lines_split : forall bs, file_lines bs = map Lines_Model.lossy (NFKC_Tie.split_lines [] bs).
+Proof. exact lines_split_l. Qed.
+Print Assumptions lines_split.
+
+(** every line is read: as many as there are 0x0A bytes, plus one for a non-empty unterminated last line *)
+Theorem file_lines_length : forall bs, length (file_lines bs) = Lines_Model.count_lines_spec bs.
+Proof. exact file_lines_length_l. Qed.
+Print Assumptions file_lines_length.
+
+(** the reader of the pinned tree yields a PREFIX of these lines, and all of them iff every line is UTF-8 ... *)
+Theorem reader_pinned_prefix : forall bs,
+  exists rest, file_lines bs = file_lines_pinned bs ++ rest
+    /\ (rest = [] <-> Forall (fun l => C01_Model.utf8_decode l <> None) (NFKC_Tie.split_lines [] bs)).
+Proof. exact reader_pinned_prefix_l. Qed.
+Print Assumptions reader_pinned_prefix.
+
+(** ... so on files whose lines are all UTF-8 the repair changes nothing ... *)
+Theorem file_lines_valid : forall bs,
+  Forall (fun l => C01_Model.utf8_decode l <> None) (NFKC_Tie.split_lines [] bs) -> file_lines bs = file_lines_pinned bs.
+Proof. exact file_lines_valid_l. Qed.
+Print Assumptions file_lines_valid.
+
+(** ... and on others the pinned tree silently lost counts (D16): files "a\n\xff\nb b\n" and "b c\n" *)
+Theorem reader_pinned_truncates :
+  let files := [[97; 10; 255; 10; 98; 32; 98; 10]; [98; 32; 99; 10]] in
+  create_bytes_pinned false 1 None None files [] [] = Ok [([97], 1); ([98], 1); ([99], 1)]
+  /\ create_bytes false 1 None None files [] [] = Ok [([97], 1); ([99], 1); ([98], 3)].
+Proof. exact reader_pinned_truncates_l. Qed.
+Print Assumptions reader_pinned_truncates.
+
+(** on a UTF-8 file the byte-level reading is the line list of the text: the lines the theorems above
+    ([counts_exact_u], ...) speak about *)
+Theorem file_lines_utf8 : forall s, C01_Model.scalars s = true -> file_lines (utf8s s) = NFKC_Tie.split_lines [] s.
+Proof. exact file_lines_utf8_l. Qed.
+Print Assumptions file_lines_utf8.
+
+(** counts_exact from BYTES: every entry is the exact positive number of occurrences of its key among the model's own
+    tokens of the first [max_seq] lines of the files, read from their bytes (invalid sequences as U+FFFD) *)
+Theorem counts_exact_b : forall chars cg max_size max_seq files arr hp d,
+  create_bytes chars cg max_size max_seq files arr hp = Ok d ->
+  NoDup (map fst d) /\
+  forall w f, In (w, f) d ->
+    f = count_tok w (flat_map (raw_tokens chars (N.to_nat cg)) (take_opt max_seq (flat_map file_lines files))) /\ 0 < f.
+Proof. exact counts_exact_b_l. Qed.
+Print Assumptions counts_exact_b.
+
+(** ... and for UTF-8 files that is [create_raw] on the lines of the texts *)
+Theorem create_bytes_utf8 : forall chars cg max_size max_seq (texts : list str) arr hp,
+  Forall (fun s => C01_Model.scalars s = true) texts ->
+  create_bytes chars cg max_size max_seq (map utf8s texts) arr hp
+  = create_raw chars cg max_size max_seq (flat_map (NFKC_Tie.split_lines []) texts) arr hp.
+Proof. exact create_bytes_utf8_l. Qed.
+Print Assumptions create_bytes_utf8.
+
+(** [Dictionary::load] on arbitrary bytes succeeds iff every line is UTF-8 and the line format is right *)
+Theorem load_b_spec : forall b d,
+  load_b b = Some d <-> (Forall (fun l => C01_Model.utf8_decode l <> None) (lines_of b) /\ load b = Some d).
+Proof. exact load_b_spec_l. Qed.
+Print Assumptions load_b_spec.
+
+(** the model's segmentation of a key is a segmentation of it, and the oracle built from a dictionary answers for
+    every key of it with that segmentation: nothing is left to cover *)
+Theorem seg_key_concat : forall k, concat (seg_key k) = k.
+Proof. exact seg_key_concat_l. Qed.
+Print Assumptions seg_key_concat.
+
+Theorem segs_of_dict_cover : forall (d : dict) k, In k (map fst d) -> seg_of (segs_of_dict d) k = Some (seg_key k).
+Proof. exact seg_of_dict_l. Qed.
+Print Assumptions segs_of_dict_cover.
+
+Theorem closest_segs_of_dict : forall norm (d0 d : dict) q, (forall e, In e d -> In (fst e) (map fst d0)) ->
+  closest norm (segs_of_dict d0) q d = closest_m norm q d.
+Proof. exact closest_segs_of_dict_l. Qed.
+Print Assumptions closest_segs_of_dict.
+
+(** closest_spec without any oracle and without premise: [get_closest] over the model's own segmentation returns, for
+    every non-empty dictionary in every iteration order, an entry at minimal distance, most frequent among those *)
+Theorem closest_m_spec : forall norm q (d : dict),
+  (d = [] -> closest_m norm q d = CNone) /\
+  (d <> [] ->
+   exists e, closest_m norm q d = CSome e /\ In e d /\
+     forall e', In e' d ->
+       (kdist_m norm q e <= kdist_m norm q e')%Q /\
+       ((kdist_m norm q e' == kdist_m norm q e)%Q -> snd e' <= snd e)).
+Proof. exact closest_m_spec_l. Qed.
+Print Assumptions closest_m_spec.
+
+(** the prepared input: its lines are the model's reading of the bytes, its [create] is [create_bytes], its
+    dictionary file is judged by [load_b] — no oracle line, word, cluster or normalised query reaches run / check *)
+Theorem prep_lines : forall v, in_raws (prep v) = flat_map file_lines (in_fbytes v).
+Proof. exact in_raws_prep_l. Qed.
+Print Assumptions prep_lines.
+
+Theorem prep_create : forall v,
+  model_create (modelize (prep v))
+  = create_bytes (in_chars v) (in_cg v) (in_max_size v) (in_max_seq v) (in_fbytes v) (in_arr v) (in_hp v).
+Proof. exact model_create_prep_l. Qed.
+Print Assumptions prep_create.
+
+Theorem prep_load : forall v, load (in_dfile (prep v)) = load_b (in_dfile v).
+Proof. exact load_prep_l. Qed.
+Print Assumptions prep_load.
+
+(** the executable statement holds of the model's own output for EVERY input: the covering premise of [check_run] /
+    [check_run_u] is discharged, the model's key oracle covers by construction *)
+Theorem check_run_b : forall v, check_C20b v (run_C20b v) = true.
+Proof. exact check_run_b_l. Qed.
+Print Assumptions check_run_b.
+
+(** "ab\r\n" + 61 FF + "\n" + "c" (no final newline): three lines, the second with U+FFFD; the pinned reader stops after one *)
+Example file_lines_witness :
+  file_lines [97; 98; 13; 10; 97; 255; 10; 99] = [[97; 98]; [97; 65533]; [99]]
+  /\ file_lines_pinned [97; 98; 13; 10; 97; 255; 10; 99] = [[97; 98]]
+  /\ file_lines [] = [] /\ file_lines [10] = [[]] /\ file_lines [239; 187; 191; 97] = [[65279; 97]].
+Proof. vm_compute. repeat split; reflexivity. Qed.
+Example file_lines_valid_witness :
+  Forall (fun l => C01_Model.utf8_decode l <> None) (NFKC_Tie.split_lines [] [97; 195; 169; 13; 10; 0; 10; 98]).
+Proof. vm_compute. repeat constructor; discriminate. Qed.
+Example load_b_witness :
+  load_b [97; 9; 49; 10; 255; 9; 50; 10] = None /\ load [97; 9; 49; 10; 255; 9; 50; 10] = Some [([97], 1); ([255], 2)]
+  /\ load_b [97; 9; 49; 10; 195; 169; 9; 50; 10] = Some [([97], 1); ([195; 169], 2)].
+Proof. vm_compute. repeat split; reflexivity. Qed.
+(** the query "Ａé" + ligature fi normalises to "Aéfi"; the key "e U+0301 b" has two clusters *)
+Example norm_query_witness :
+  norm_query [65313; 101; 769; 64257] = [65; 233; 102; 105] /\ seg_key [101; 204; 129; 98] = [[101; 204; 129]; [98]].
+Proof. vm_compute. split; reflexivity. Qed.
